@@ -304,9 +304,23 @@ impl<'a> Cx<'a> {
 
     /// arity rule, its error text, and the token index of that literal
     fn arity(&self, b: (usize, usize)) -> (String, Option<String>, Option<usize>) {
-        let (s, e) = b;
+        let (mut s, e) = b;
         let off = self.first as i64;
         let t = self.t;
+        // leading macro statements (`tracing::debug!("…");`, `debug_assert!(…);`) are not part of the grammar
+        loop {
+            let mut j = s;
+            while j + 2 < e && matches!(&t[j], Tk::Id(_)) && is_p(&t[j + 1], "::") { j += 2; }
+            if j + 2 < e && matches!(&t[j], Tk::Id(_)) && is_p(&t[j + 1], "!") && (is_p(&t[j + 2], "(") || is_p(&t[j + 2], "[") || is_p(&t[j + 2], "{")) {
+                if let Some(c) = close_of(t, j + 2) {
+                    let mut k = c + 1;
+                    if k < e && is_p(&t[k], ";") { k += 1; }
+                    s = k;
+                    continue;
+                }
+            }
+            break;
+        }
         if s >= e { return ("any".into(), None, None); }
         // A: `if COND { return Err("text"…`
         if is_id(&t[s], "if") {
@@ -622,8 +636,11 @@ fn describe(cx: &Cx, name: &str, body: (usize, usize)) -> Row {
                     if kind == "int" && xs >= 3 {
                         if let Some((_, c)) = cx.at(xs - 3, "let $i =") {
                             let stmt_end = (xe..be).find(|j| is_p(&t[*j], ";")).unwrap_or(be);
-                            if let Some((_, c2, ix)) = m_at_ix(t, stmt_end + 1, &format!("if {} < 1 {{ return Err ( $s", c[0]), cx.arr) {
-                                if c2[0] == "ERR syntax error" { kind = "pos".into(); attributed.insert(ix[0]); }
+                            for guard in [format!("if {} < 1 {{ return Err ( $s", c[0]), format!("if {} <= 0 {{ return Err ( $s", c[0]), format!("if 1 > {} {{ return Err ( $s", c[0]), format!("if ! ( {} >= 1 ) {{ return Err ( $s", c[0])] {
+                                if let Some((_, c2, ix)) = m_at_ix(t, stmt_end + 1, &guard, cx.arr) {
+                                    if c2[0] == "ERR syntax error" { kind = "pos".into(); attributed.insert(ix[0]); }
+                                    break;
+                                }
                             }
                         }
                     }
